@@ -174,7 +174,9 @@ func (tw *tokenWorld) race(ch *kernel.Chooser) string {
 	if anyPanic {
 		return desc
 	}
-	killsA := func(k string) bool { return k == "revoke-access" || k == "revoke-refresh" || k == "refresh" || k == "logout" }
+	killsA := func(k string) bool {
+		return k == "revoke-access" || k == "revoke-refresh" || k == "refresh" || k == "logout"
+	}
 	killsR := func(k string) bool { return k == "revoke-refresh" || k == "refresh" || k == "logout" }
 	for i, u := range ops {
 		if !u.ok || u.faulted != "" && !strings.HasPrefix(u.kind, "use-") && u.kind != "refresh" {
